@@ -119,7 +119,11 @@ Definition truthy (x : N) : bool := negb (eqb N x (n0 N)).          (* Python tr
 Definition otruthy (x : option N) : bool := match x with Some v => truthy v | None => false end.
 Definition pymax (a b : N) : N := if ltb N a b then b else a.          (* builtin max(a, b) *)
 
-Record iso := mkiso { i_sma : N; i_code : Z; i_valid : bool }.
+(* [i_geom]: provenance of the isophote's geometry (centre, eps, PA) = the number of the fit_isophote call
+   whose FITTER produced it (1 = first call); 0 = the caller's first-guess geometry.  Fitted isophotes carry
+   their own call number; non-iterative ones (stop code 4), the central one and those repaired by
+   _fix_last_isophote (fix_geometry) carry a copy of another isophote's geometry. *)
+Record iso := mkiso { i_sma : N; i_code : Z; i_valid : bool; i_geom : Z }.
 (* one call of Ellipse.fit_isophote: sma, noniterate, going_inwards, minit doubled *)
 Record call := mkcall { c_sma : N; c_noniter : bool; c_inw : bool; c_first : bool }.
 Definition outcome := (Z * bool)%type.                                 (* (stop_code, valid) *)
@@ -127,33 +131,43 @@ Definition outcome := (Z * bool)%type.                                 (* (stop_
 (* ellipse.py:634-654 with _iterative (656-672) and _non_iterative (674-682):
    non-iterative mode gives (4, valid) without consulting the fitter; sma <= 0 is the
    central pixel (0, valid); otherwise the next oracle outcome.  None = oracle exhausted. *)
-Definition fit_isophote (maxrit : option N) (sma : N) (noniter : bool)
+Definition last_geom (l : list iso) : Z :=
+  match rev l with [] => 0%Z | j :: _ => i_geom j end.
+
+(* [tok] = number of this call.  ellipse.py:634-640: the geometry handed to BOTH branches is that of the
+   most recent isophote of the list (the first guess while the list is empty): the fitter starts from it
+   and returns its own ([tok]); _non_iterative and the central sample just copy it. *)
+Definition fit_isophote (maxrit : option N) (sma : N) (noniter : bool) (tok : Z)
            (l : list iso) (s : list outcome) : option (iso * list iso * list outcome) :=
   let nonit := noniter || match maxrit with
                           | Some m => truthy m && ltb N m sma
                           | None => false
                           end in
-  let r := if nonit then Some (4%Z, true, s)
+  let gin := last_geom l in
+  let r := if nonit then Some (4%Z, true, gin, s)
            else if ltb N (n0 N) sma
                 then match s with
                      | [] => None
-                     | (c, v) :: s' => Some (c, v, s')
+                     | (c, v) :: s' => Some (c, v, tok, s')
                      end
-                else Some (0%Z, true, s) in
+                else Some (0%Z, true, gin, s) in
   match r with
   | None => None
-  | Some (c, v, s') => let i := mkiso sma c v in Some (i, if v then l ++ [i] else l, s')
+  | Some (c, v, g, s') => let i := mkiso sma c v g in Some (i, if v then l ++ [i] else l, s')
   end.
 
 (* ellipse.py:685-708; None = IndexError (isophote_list[index] on an empty list).
-   fix_geometry copies eps/pa/x0/y0 only: the sma stays. *)
-Definition fix_last (l : list iso) : option (list iso) :=
+   fix_geometry copies eps/pa/x0/y0 of isophote_list[index] AFTER the pop ([first] = index 0: the first
+   isophote, inward pass; otherwise index -1: the new last one, outward pass): the sma stays. *)
+Definition fix_last (first : bool) (l : list iso) : option (list iso) :=
   match rev l with
   | [] => Some l
   | i :: r =>
       match r with
       | [] => None
-      | _ => Some (rev r ++ [mkiso (i_sma i) (if (i_code i <? 0)%Z then 5%Z else i_code i) (i_valid i)])
+      | k :: _ =>
+          let g := if first then match rev r with f :: _ => i_geom f | [] => 0%Z end else i_geom k in
+          Some (rev r ++ [mkiso (i_sma i) (if (i_code i <? 0)%Z then 5%Z else i_code i) (i_valid i) g])
       end
   end.
 
@@ -177,7 +191,7 @@ Inductive after := AEmpty | AErr | ABreak (l : list iso) | ACont (l : list iso) 
 Definition out_failure (i : iso) (l1 : list iso) (noiter : bool) : after :=
   if (i_code i <? 0)%Z || (i_code i =? 1)%Z then
     if (length l1 =? 1)%nat then AEmpty
-    else match fix_last l1 with
+    else match fix_last false l1 with
          | None => AErr
          | Some l2 =>
              match last_opt l2 with
@@ -204,7 +218,7 @@ Fixpoint outward (fuel : nat) (sma : N) (noiter first : bool)
   | O => PStop Fuel calls
   | S f =>
       let calls := calls ++ [mkcall sma noiter false first] in
-      match fit_isophote maxrit sma noiter l s with
+      match fit_isophote maxrit sma noiter (Z.of_nat (length calls)) l s with
       | None => PStop Starved calls
       | Some (i, l1, s1) =>
           match out_failure i l1 noiter with
@@ -236,10 +250,10 @@ Fixpoint inward (fuel : nat) (sma istep : N)
   | S f =>
       if top_test && negb (ltb N (pymax minsma (n05 N)) sma) then PDone l s calls else
       let calls := calls ++ [mkcall sma false true false] in
-      match fit_isophote maxrit sma false l s with
+      match fit_isophote maxrit sma false (Z.of_nat (length calls)) l s with
       | None => PStop Starved calls
       | Some (i, l1, s1) =>
-          match (if (i_code i <? 0)%Z then fix_last l1 else Some l1) with
+          match (if (i_code i <? 0)%Z then fix_last true l1 else Some l1) with
           | None => PStop IndexErr calls
           | Some l2 =>
               if (i_code i =? 3)%Z then PDone l2 s1 calls
@@ -279,7 +293,7 @@ Definition fit_image (fuel : nat) (sma0 : option N) (gsma : N) (fix_all : bool)
           | PDone l s2 calls =>
               if eqb N minsma (n0 N) then
                 let calls := calls ++ [mkcall (n0 N) false false false] in
-                match fit_isophote None (n0 N) false l s2 with
+                match fit_isophote None (n0 N) false (Z.of_nat (length calls)) l s2 with
                 | None => (Starved, calls)
                 | Some (_, l3, _) => (Ret (sort l3), calls)
                 end
@@ -445,7 +459,8 @@ Fixpoint list_eqb2 {B C} (eqb : B -> C -> bool) (a : list B) (b : list C) : bool
   end.
 
 Definition zcall := (fl * bool * bool * bool)%type.
-Definition zres := (Z * list (fl * Z * bool))%type.       (* kind: 0 Ret, 1 IndexErr, 2 Starved *)
+Definition zres := (Z * list (fl * Z * bool * Z))%type.   (* kind: 0 Ret, 1 IndexErr, 2 Starved; isophotes
+   (sma, code, valid, geometry token; token -1 = not observed: real fitter) *)
 
 Fixpoint lookup (tab : list (float * float)) (x : float) : float :=
   match tab with
@@ -474,8 +489,10 @@ Definition call_eqb (c : call Fnum) (z : zcall) : bool :=
   let '(s, ni, inw, fst_) := z in
   feq (c_sma Fnum c) s && Bool.eqb (c_noniter Fnum c) ni && Bool.eqb (c_inw Fnum c) inw
   && Bool.eqb (c_first Fnum c) fst_.
-Definition iso_eqb (i : iso Fnum) (z : fl * Z * bool) : bool :=
-  let '(s, c, v) := z in feq (i_sma Fnum i) s && (i_code Fnum i =? c)%Z && Bool.eqb (i_valid Fnum i) v.
+Definition iso_eqb (i : iso Fnum) (z : fl * Z * bool * Z) : bool :=
+  let '(s, c, v, g) := z in
+  feq (i_sma Fnum i) s && (i_code Fnum i =? c)%Z && Bool.eqb (i_valid Fnum i) v
+  && ((g =? -1)%Z || (i_geom Fnum i =? g)%Z).
 
 Definition polar_s (tab : list (float * float)) (x0 y0 pa : float) (p : float * float) :=
   to_polar_scalar PrimFloat.add PrimFloat.sub PrimFloat.mul PrimFloat.div PrimFloat.sqrt
